@@ -148,22 +148,30 @@ def classify(prog, endian, pv=None):
     if endian == -1:
         cls.append("BE")
     pv = list(pv) if pv is not None else [0x10000, 0x20000, 0x30000]
-    last = {}
-    other_since = {}
+    last = {}  # concrete address -> width of the last store there
+    slast = {}  # symbolic key (pointer register, accumulated offset) -> width of the last store under that key
+    other_since = {}  # symbolic key -> a store under another symbolic key happened since
+    acc = [0, 0, 0]
     for ins in prog:
         if ins[0] == "padd":
             pv[ins[1]] = (pv[ins[1]] + ins[2]) & 0xFFFFFFFF
+            acc[ins[1]] += ins[2]
             cls.append("padd")
             continue
         key = (pv[ins[1]] + ins[2]) & 0xFFFFFFFF
+        sk = (ins[1], acc[ins[1]] + ins[2])
         if ins[0] == "st":
-            if key in last and last[key] > ins[3]:
-                cls.append("narrow-after-wide")
+            if (sk in slast and slast[sk] > ins[3]) or (key in last and last[key] > ins[3]):
+                # the listed defect (entry rebuilt from the stale wide value) needs a store under another key between the
+                # wide and the narrow store; without one the rebuilt entry is exact
+                between = other_since.get(sk, True) if sk in slast and slast[sk] > ins[3] else True
+                cls.append("narrow-after-wide" if between else "narrow-directly-after-wide")
             last[key] = ins[3]
+            slast[sk] = ins[3]
             for k in other_since:
-                if k != key:
+                if k != sk:
                     other_since[k] = True
-            other_since[key] = False
+            other_since[sk] = False
         else:
             if key in last and last[key] < ins[3]:
                 cls.append("wide-load-after-narrow-store")
